@@ -345,8 +345,11 @@ func (r *realm) onLeave(sess *wamp.Session, shutdown, killAll bool) {
 		// If realm is shutdown, do not bother to remove session from broker
 		// and dealer. They will be closed after sessions are closed.
 		if !shutdown {
-			r.dealer.removeSession(sess)
+			// Remove the session's subscriptions first, so that the meta
+			// events about its registrations are not sent to the session
+			// that is leaving.
 			r.broker.removeSession(sess)
+			r.dealer.removeSession(sess)
 		}
 		close(sync)
 	}
